@@ -66,33 +66,47 @@ def _quarters(case):
     return sorted({4 * p + d for p in a for d in (-3, -2, -1, 1, 2, 3)})
 
 
+def _probe(tb, case):
+    from pyannote.core import Segment
+    a, b, c = tb.S(case["a"]), tb.S(case["b"]), tb.S(case["c"])
+    # same value through another numeric type, for hash/== consistency
+    b2 = Segment(float(b.start), float(b.end)) if case["regime"] == "K1" else \
+        Segment(int(b.start) if float(b.start).is_integer() else b.start,
+                int(b.end) if float(b.end).is_integer() else b.end)
+    try:
+        x = a ^ b
+        xor = tb.us(x)
+    except ValueError:
+        xor = None
+    return {
+        "bool": bool(a), "dur": tb.u(a.duration), "mid2": tb.u(a.middle, 2),
+        "and": tb.us(a & b), "or": tb.us(a | b), "xor": xor,
+        "inter": bool(a.intersects(b)), "inter_ba": bool(b.intersects(a)), "in": bool(a in b), "eq": bool(a == b2) and bool(a == b) == bool(a == b2),
+        "lt": bool(a < b), "hasheq": hash(a) == hash(b2) and (hash(a) == hash(b)) == (hash(a) == hash(b2)),
+        "ov1": bool(a.overlaps(b.start)), "ov2": bool(a.overlaps(b.end)),
+        # time points off the grid (quarter ticks): under set_precision a probe Segment(t, t) would be rounded
+        "ovq": [[q, bool(a.overlaps(q / (4 * tb.scale)))] for q in _quarters(case)],
+        "and_l": tb.us((a & b) & c), "and_r": tb.us(a & (b & c)),
+        "or_l": tb.us((a | b) | c), "or_r": tb.us(a | (b | c)),
+        "sorted": [tb.us(s) for s in sorted([a, b, c])],
+    }
+
+
 def run(case):
     from pyannote.core import Segment
+    from harness import timebase
     tb = TB(case["regime"])
+    if timebase.PRECHIST:
+        # the same questions asked first under ANOTHER precision (answers discarded): the precision is process-wide
+        # state and nothing remembered from an earlier setting may leak into the answers under the current one
+        try:
+            Segment.set_precision(None if tb.prec is not None else (0 if timebase.PRECHIST == 1 else 1))
+            _probe(tb, case)
+        except Exception:
+            pass
     tb.enter()
     try:
-        a, b, c = tb.S(case["a"]), tb.S(case["b"]), tb.S(case["c"])
-        # same value through another numeric type, for hash/== consistency
-        b2 = Segment(float(b.start), float(b.end)) if case["regime"] == "K1" else \
-            Segment(int(b.start) if float(b.start).is_integer() else b.start,
-                    int(b.end) if float(b.end).is_integer() else b.end)
-        try:
-            x = a ^ b
-            xor = tb.us(x)
-        except ValueError:
-            xor = None
-        return {
-            "bool": bool(a), "dur": tb.u(a.duration), "mid2": tb.u(a.middle, 2),
-            "and": tb.us(a & b), "or": tb.us(a | b), "xor": xor,
-            "inter": bool(a.intersects(b)), "inter_ba": bool(b.intersects(a)), "in": bool(a in b), "eq": bool(a == b2) and bool(a == b) == bool(a == b2),
-            "lt": bool(a < b), "hasheq": hash(a) == hash(b2) and (hash(a) == hash(b)) == (hash(a) == hash(b2)),
-            "ov1": bool(a.overlaps(b.start)), "ov2": bool(a.overlaps(b.end)),
-            # time points off the grid (quarter ticks): under set_precision a probe Segment(t, t) would be rounded
-            "ovq": [[q, bool(a.overlaps(q / (4 * tb.scale)))] for q in _quarters(case)],
-            "and_l": tb.us((a & b) & c), "and_r": tb.us(a & (b & c)),
-            "or_l": tb.us((a | b) | c), "or_r": tb.us(a | (b | c)),
-            "sorted": [tb.us(s) for s in sorted([a, b, c])],
-        }
+        return _probe(tb, case)
     finally:
         tb.leave()
 
